@@ -198,6 +198,10 @@ func (g *Gen) lineBlock(b *Block, depth int, n int) {
 			b.Stmts = append(b.Stmts, decl, CallSN("emitfn", Str("def:"+f), N(f)), &SCall{Call: Call(N(f), args...)})
 		case 8, 9:
 			// enumerate locals here
+			if g.R.Intn(5) == 0 {
+				b.Stmts = append(b.Stmts, CallSN("badidx"))
+				g.cover("badidx")
+			}
 			b.Stmts = append(b.Stmts, CallSN("probe", Str(g.fresh("pl"))))
 		case 10:
 			if len(locals) > 0 {
